@@ -20,7 +20,7 @@ RULE = ("cases = URLs from scheme x separator x userinfo x host x port x path x 
 ASSUMPTIONS = ["upper-case schemes, port 0 and an empty port are don't-care", "errno values other than refused/unreachable may abort or continue (don't-care)",
                "TLS is simulated for this check (the wrap request is recorded); real TLS is C11's subject"]
 
-SCHEMES = ["ws", "wss", "http", "https", "WS", ""]
+SCHEMES = ["ws", "wss", "http", "https", "WS", "", "WSS"]
 SEPS = ["://", ":/", ":", "//", ""]
 USERINFO = ["", "u:p@"]
 HOSTS = ["example.com", "EXAMPLE.com", "127.0.0.1", "[::1]", "[2001:db8::1]", ""]
@@ -32,7 +32,7 @@ OTHERS = [errno.ETIMEDOUT, errno.EHOSTUNREACH, errno.EPERM]
 
 
 def bounds(tier):
-    return "URL grid of 25920 strings%s; 340 address lists x {IPv4, IPv6, mixed} x 2 option sets x 2 timeouts x 3 'other' errno values; 36 ordered pairs of settings for successive connections" % (
+    return "URL grid of 30240 strings%s; 340 address lists x {IPv4, IPv6, mixed} x 2 option sets x 2 timeouts x 3 'other' errno values; 36 ordered pairs of settings for successive connections" % (
         " + all ports 1..65535" if tier == "thorough" else " + ports 1..65535 step 257")
 
 
@@ -129,6 +129,9 @@ def url_case(url, through_connect=True):
     if ref[0] == "dontcare":
         if out is not None and not isinstance(out, (ValueError, lib.websocket.WebSocketException)):
             return ({"kind": "unexpected-exception", "exc": type(out).__name__}, "%s: connect() raised %r" % (label, out))
+        # whether e.g. an upper-case scheme is accepted is not specified - but IF a URL spelled like wss is accepted, it is a wss target
+        if out is None and url.split(":", 1)[0].lower() == "wss" and not net.wraps:
+            return ({"kind": "tls-mismatch", "wrapped": False, "accepted_spelling": url.split(":", 1)[0]}, "%s: the URL was accepted as a wss target but no TLS wrap was requested" % label)
         return None
     if out is not None:
         return ({"kind": "valid-url-connect-failed", "exc": type(out).__name__}, "%s: connect() raised %r" % (label, out))
@@ -165,6 +168,9 @@ def addr_case(outs, user_opt, timeout, other_errno, tsrc="settimeout", fam="v4")
     net.peer_for = lambda n_, s, a: Peer()
     simnet.install(net)
     sockopt = [(S.SOL_SOCKET, S.SO_RCVBUF, 12345)] if user_opt else []
+    if user_opt == "collide":
+        # options whose NUMBER equals that of a default option at another level (IP_TOS = TCP_NODELAY = 1, SO_DONTROUTE = TCP_KEEPINTVL = 5, ...)
+        sockopt = [(S.IPPROTO_IP, S.IP_TOS, 0x10), (S.SOL_SOCKET, S.SO_DONTROUTE, 0), (S.SOL_SOCKET, S.SO_BROADCAST, 0), (S.IPPROTO_TCP, 9, 1)]
     label = "addresses %r (%s) sockopt=%r timeout=%r" % (kinds, fam, sockopt, timeout)
     label += " timeout-source=%s" % tsrc
     ws = None
@@ -397,8 +403,8 @@ def run_task(desc):
         res["samples"].append({"history_settings": [x[0] for x in _settings()]})
     else:
         for outs in itertools.product(range(len(OUTCOMES)), repeat=desc["k"]):
-            for user_opt in (False, True):
-                for timeout in (None, 5):
+            for user_opt in (False, True, "collide"):
+                for timeout in ((None, 5) if user_opt != "collide" else (None,)):
                     for other in (OTHERS if 3 in outs else OTHERS[:1]):
                         for tsrc in (("settimeout", "connect-option", "create_connection", "setdefaulttimeout", "app") if other == OTHERS[0] else ("settimeout",)):
                             for fam in (("v4", "v6", "mixed") if tsrc == "settimeout" else ("v4",)):
